@@ -7,9 +7,10 @@ import solverslices
 from props.c04 import TRUSTED
 
 THEOREMS = ["C07_mirror_x_partial", "C07_mirror_y_partial", "C07_transpose_partial", "C07_length_scaling",
-            "C07_velocity_scaling", "C07_velocity_scaling_eig", "C07_sqrt_scale_in_C", "C07_transpose", "C07_transposed_request_geometry"]
+            "C07_velocity_scaling", "C07_velocity_scaling_eig", "C07_sqrt_scale_in_C", "C07_transpose", "C07_transposed_request_geometry",
+            "C07_mirror_geometry", "C07_mirror_x", "C07_mirror_x_defect", "C07_mirror_x_odd", "C07_mirror_y", "C07_mirror_y_defect", "C07_mirror_y_odd"]
 ASSUMPTIONS = [
-    "PARTIAL: mirror and transpose are proved per horizontal mode (the mode solution at the mirrored/swapped wavenumber); the array-level statement needs the retained frequency set to be symmetric, true up to its Nyquist row/column, and is carried by the correspondence and the oracle (Nyquist components filtered as the property allows)",
+    "array-level mirror: proved for the fields synthesised without the unpaired (Nyquist) column/row of the retained frequency set, as an exact defect identity for the returned arrays, and for the returned arrays themselves when the clamped mode count is odd; dispersion mode under double storage and the default measurement point (no re-centring shift); footprint mode at both precisions",
     "length scaling of the top condition uses sqrt(r/s^2) = sqrt(r)/s (principal root, real s > 0) as a hypothesis",
 ]
 
